@@ -140,6 +140,15 @@ def _pair_specs(rng, D, N, order):
                                                drag=-0.1, order=order),
                       gen.GeneralVorticityConvectionStepper(D, L, N, dt, linear_coefficients=(-0.1 / D, 0.0, nu),
                                                             vorticity_convection_scale=abs(b) + 0.1, order=order)))
+        # the forced variant, POSITIVE and NEGATIVE injection scale (a negative amplitude is a half-period shift of the
+        # forcing, as valid as a positive one), injection mode within and above the dealiasing band
+        for g, m in ((float(rng.uniform(0.3, 1.5)), 1), (-float(rng.uniform(0.3, 1.5)), max(1, min(2, N // 2 - 1)))):
+            pairs.append((f"KolmogorovFlowVorticity~GeneralVorticityConvection(injection_scale={'+' if g > 0 else '-'})", 1,
+                          st.KolmogorovFlowVorticity(D, L, N, dt, diffusivity=nu, convection_scale=abs(b) + 0.1, drag=-0.1,
+                                                     injection_mode=m, injection_scale=g, order=order),
+                          gen.GeneralVorticityConvectionStepper(D, L, N, dt, linear_coefficients=(-0.1 / D, 0.0, nu),
+                                                                vorticity_convection_scale=abs(b) + 0.1, injection_mode=m,
+                                                                injection_scale=g, order=order)))
     return pairs, (L, dt, nu, b)
 
 
